@@ -609,6 +609,14 @@ func (c *c20) RunCase(w *core.Worker, idx int, seed uint64, res *core.CaseResult
 				rsp, err = srv.TransactionSet(cctx, req)
 				return err
 			})
+			if desc == "seed content" {
+				// content the read requests are meant to find: kept
+				r.call("Server.TransactionConfirm", desc, func() error {
+					_, err := srv.TransactionConfirm(pctx, &sdcpb.TransactionConfirmRequest{DatastoreName: ds.Name, TransactionId: req.GetTransactionId()})
+					return err
+				})
+				return
+			}
 			// leave no transaction open
 			r.call("Server.TransactionCancel", desc, func() error {
 				_, err := srv.TransactionCancel(pctx, &sdcpb.TransactionCancelRequest{DatastoreName: ds.Name, TransactionId: req.GetTransactionId()})
@@ -707,7 +715,9 @@ func (c *c20) RunCase(w *core.Worker, idx int, seed uint64, res *core.CaseResult
 		case "rpc-requests":
 			// some content to read
 			doSet("seed content", &sdcpb.TransactionSetRequest{DatastoreName: ds.Name, TransactionId: "seed", Intents: []*sdcpb.TransactionIntent{{Intent: "oa", Priority: 10, Update: []*sdcpb.Update{
-				{Path: model.Parse("/sys/descr").ToPb(), Value: strTv("a")}, {Path: model.Parse("/if[name=e1]/mtu").ToPb(), Value: strTv("1500")}, {Path: model.Parse("/peer[name=n1][zone=z1]/as").ToPb(), Value: strTv("1")}}}}})
+				{Path: model.Parse("/sys/descr").ToPb(), Value: strTv("a")}, {Path: model.Parse("/if[name=e1]/mtu").ToPb(), Value: strTv("1500")}, {Path: model.Parse("/peer[name=n1][zone=z1]/as").ToPb(), Value: strTv("1")},
+				// a presence container that holds a value of its own and a leaf: an entry that is a strict prefix of another
+				{Path: model.Parse("/pres").ToPb(), Value: &sdcpb.TypedValue{Value: &sdcpb.TypedValue_EmptyVal{}}}, {Path: model.Parse("/pres/b").ToPb(), Value: strTv("x")}}}}})
 			for i := 0; i < n; i++ {
 				p := mutatePath(rng, c20SchemaPaths[rng.Intn(len(c20SchemaPaths))])
 				name := []string{ds.Name, ds.Name, "", "nope"}[rng.Intn(4)]
@@ -720,6 +730,16 @@ func (c *c20) RunCase(w *core.Worker, idx int, seed uint64, res *core.CaseResult
 					}
 					if rng.Chance(1, 6) {
 						req.Path = append(req.Path, nil2p())
+					}
+					switch rng.Intn(8) {
+					case 0:
+						// several related paths in one request: a node and something below or above it
+						req.Path = append(req.Path, model.Parse("/pres/b").ToPb(), model.Parse("/pres").ToPb())
+					case 1:
+						req.Path = append([]*sdcpb.Path{model.Parse("/pres").ToPb()}, req.Path...)
+						req.Path = append(req.Path, model.Parse("/pres/b").ToPb(), model.Parse("/sys").ToPb(), model.Parse("/sys/descr").ToPb())
+					case 2:
+						req.Path = append(req.Path, model.Parse("/if/mtu").ToPb(), model.Parse("/if[name=e1]").ToPb(), model.Parse("/peer/as").ToPb())
 					}
 					desc := fmt.Sprintf("GetData %v", req)
 					note(desc)
